@@ -34,6 +34,8 @@ pub struct Shared {
     pub max_inner_ns: std::sync::atomic::AtomicU64,
     /// set by the first on_run invocation (on_start is over, the lifecycle holds no strong reference)
     pub ran: AtomicBool,
+    /// completed on_run invocations
+    pub ticks: AtomicUsize,
 }
 
 pub struct RaceActor {
@@ -61,6 +63,11 @@ impl Actor for RaceActor {
     }
     async fn on_run(&mut self, _w: &ActorWeak<Self>) -> Result<bool, String> {
         self.sh.ran.store(true, Ordering::Release);
+        if self.run_mode == 2 {
+            tokio::time::sleep(Duration::from_millis(1)).await;
+            self.sh.ticks.fetch_add(1, Ordering::AcqRel);
+            return Ok(true);
+        }
         if self.run_mode == 1 {
             tokio::task::yield_now().await;
             Ok(true)
@@ -149,7 +156,7 @@ impl Rng {
 }
 
 fn spawn_actor(rt: &tokio::runtime::Runtime, cap: usize, run_mode: u8, spin: u32) -> (ActorRef<RaceActor>, tokio::task::JoinHandle<ActorResult<RaceActor>>, Arc<Shared>, tokio::sync::watch::Sender<bool>) {
-    let sh = Arc::new(Shared { handled: Mutex::new(vec![]), on_stop: Mutex::new(vec![]), spin, next: Mutex::new(None), meet: Mutex::new(None), max_inner_ns: std::sync::atomic::AtomicU64::new(0), ran: AtomicBool::new(false) });
+    let sh = Arc::new(Shared { handled: Mutex::new(vec![]), on_stop: Mutex::new(vec![]), spin, next: Mutex::new(None), meet: Mutex::new(None), max_inner_ns: std::sync::atomic::AtomicU64::new(0), ran: AtomicBool::new(false), ticks: AtomicUsize::new(0) });
     let (tx, rx) = tokio::sync::watch::channel(false);
     let _g = rt.enter();
     let (r, jh) = rsactor::spawn_with_mailbox_capacity::<RaceActor>((sh.clone(), rx, run_mode), cap);
@@ -700,6 +707,49 @@ fn ring_round(_rt: &tokio::runtime::Runtime, _rng: &mut Rng, cfg: &mut String) -
 }
 
 // ---------------------------------------------------------------------------------------------
+// on_run is re-armed after every message
+// ---------------------------------------------------------------------------------------------
+/// The actor's on_run sleeps 1 ms, counts a tick and returns Ok(true). Messages arrive one at a
+/// time from outside the runtime (blocking_tell from this OS thread, or a tell driven by block_on);
+/// after each of them, with the mailbox empty again and nothing else going on, on_run must be run
+/// again: the tick counter has to advance by 2 within 5 s (it normally takes 2 ms).
+fn rearm_round(rt: &tokio::runtime::Runtime, rng: &mut Rng, cfg: &mut String) -> Option<Bad> {
+    let cap = [1usize, 2, 8, 64][rng.below(4) as usize];
+    let msgs = 5 + rng.below(16) as u32;
+    let blocking = rng.below(4) != 0;
+    *cfg = format!("rearm:cap{cap}:msgs{msgs}:{}", if blocking { "blocking" } else { "async" });
+    let (r, jh, sh, _tx) = spawn_actor(rt, cap, 2, 0);
+    let h = rt.handle().clone();
+    for i in 0..msgs {
+        let o = call(&r, &h, if blocking { Api::BTell } else { Api::Tell }, 10 + i, Duration::ZERO);
+        if o != Outc::Ok {
+            return bad("C17", "send-failed-on-live-actor", format!("tell {i} to a live actor returned {o:?}"));
+        }
+        let t0 = Instant::now();
+        // the message is handled first (C08), then the actor is idle again
+        while !sh.handled.lock().unwrap().contains(&(10 + i)) {
+            if t0.elapsed() > Duration::from_secs(5) {
+                return bad("C01", "accepted-not-handled", format!("tell {i} returned Ok but the message was not handled within 5 s by an actor that is only ticking"));
+            }
+            std::thread::sleep(Duration::from_micros(50));
+        }
+        let base = sh.ticks.load(Ordering::Acquire);
+        while sh.ticks.load(Ordering::Acquire) < base + 2 {
+            if t0.elapsed() > Duration::from_secs(5) {
+                return bad("C08", "on-run-not-rearmed", format!("on_run returned Ok(true) every time; after message {i} of {msgs} ({}, mailbox capacity {cap}) had been handled the mailbox was empty and no kill pending, yet on_run completed only {} more time(s) in 5 s (it sleeps 1 ms)", if blocking { "blocking_tell from an OS thread" } else { "tell" }, sh.ticks.load(Ordering::Acquire) - base));
+            }
+            std::thread::sleep(Duration::from_micros(100));
+        }
+    }
+    let _ = rt.block_on(r.stop());
+    drop(r);
+    if join(rt, jh).is_none() {
+        return bad("C07", "did-not-end", "stopped ticking actor did not end within 10 s".to_string());
+    }
+    None
+}
+
+// ---------------------------------------------------------------------------------------------
 // weak handles (typed and type-erased) never pin the actor
 // ---------------------------------------------------------------------------------------------
 /// The harness holds the only strong reference of an idle actor that was never sent a message.
@@ -900,7 +950,7 @@ fn metrics_round(_rt: &tokio::runtime::Runtime, _rng: &mut Rng, cfg: &mut String
 // ---------------------------------------------------------------------------------------------
 // driver
 // ---------------------------------------------------------------------------------------------
-pub const KINDS: [&str; 7] = ["drop", "burst", "parked", "stop", "ring", "metrics", "weakpin"];
+pub const KINDS: [&str; 8] = ["drop", "burst", "parked", "stop", "ring", "metrics", "weakpin", "rearm"];
 
 /// Which experiments the check of a property runs, and which clauses (properties) it reports: a
 /// round that breaks a clause of some *other* property is left to that property's own check.
@@ -911,6 +961,7 @@ pub fn kinds_for(prop: &str) -> &'static [&'static str] {
         "C04" | "C05" => &["drop", "stop"],
         "C07" => &["drop", "stop", "weakpin"],
         "C11" | "C16" => &["weakpin"],
+        "C08" => &["rearm"],
         "C09" => &["parked"],
         "C10" => &["parked"],
         "C14" | "C15" => &["ring"],
@@ -943,6 +994,7 @@ fn run_kind(prop: &str, kind: &'static str, rng_seed: u64, rounds: u32, replay_o
             "ring" => ring_round(&rt, &mut rng, &mut cfg),
             "metrics" => metrics_round(&rt, &mut rng, &mut cfg),
             "weakpin" => weakpin_round(&rt, &mut rng, &mut cfg),
+            "rearm" => rearm_round(&rt, &mut rng, &mut cfg),
             _ => stop_race_round(&rt, &mut rng, &mut cfg),
         };
         part.evaluations += 1;
